@@ -37,7 +37,7 @@ REQUIRED_THEOREMS = [
         "enforce_rejects_unchanged typed_rejects member_item_or_key lookup_sound lookup_complete lookup_absent discard_spec "
         "discard_unamb remove_spec remove_member remove_absent len_iter pop_spec clear_spec failed_step_unchanged "
         "ior_failure_prefix or_keys and_keys sub_keys sub_pyset_keys_partial sub_pyset_keys_full_fails le_keys "
-        "le_pyset_keys_partial eq_keys eq_pyset ior_keys isub_keys xor_keys"
+        "le_pyset_keys_partial eq_keys eq_pyset ior_keys isub_keys xor_keys probe_independent"
     ).split()
 ]
 RULE = (
@@ -48,10 +48,12 @@ RULE = (
     "items with an ill-typed (incl. falsy) key, keys used as arguments, unkeyable values and a value on which the key function "
     "raises IndexError. Exhaustive part: every single operation (add/discard/remove/contains/[]/get over every value of the "
     "universe; pop/clear/len/iter/keys/items; | & - ^ and reflected, rebinding, <= < >= > == isdisjoint and reflected, "
-    "|= &= -= ^= incl. self-aliased, against KeyedSet (both flags, typed/untyped), built-in set and list operands of <= 2 "
+    "|= &= -= ^= incl. self-aliased, and `probe` (r = a <op> b; `fresh` = r is not a and r is not b; mutate r, re-read a and b; "
+    "mutate a, re-read r), against KeyedSet (both flags, typed/untyped), built-in set, frozenset and list operands of <= 2 "
     "elements incl. two unequal items under one falsy key) from every initial set of <= N items with distinct keys (quick: N=1 "
     "all ops + 3 sets of 2 items with a sample of the operand ops; thorough: N=2, all ops for N<=1 and all value ops + a third of "
-    "the operand ops for N=2), rebinding ops followed by adds that probe key function/flag/type of the new set; then seeded "
+    "the operand ops for N=2; operators and probes with an EMPTY operand of any kind or the receiver itself are never sampled "
+    "away), rebinding ops followed by adds that probe key function/flag/type of the new set; then seeded "
     "random sequences of <= 20 ops (quick 8000, thorough 20000). A step is non-trivial when it changed the "
     "set, raised, returned a non-empty set / a hit; distinct = distinct (universe, typed, enforce, pre-state, op)"
 )
@@ -330,6 +332,8 @@ def build_operand(u, s, o):
         return make_set(u, bool(o[2]), bool(o[1]), o[3])
     if o[0] == "S":
         return set(real_value(u, v) for v in o[1])
+    if o[0] == "F":
+        return frozenset(real_value(u, v) for v in o[1])
     if o[0] == "L":
         return [real_value(u, v) for v in o[1]]
     raise ValueError(o)
@@ -340,10 +344,11 @@ def operand_tok(u, o):
         return "self"
     if o[0] == "K":
         return f"K|{int(bool(o[1]))}|{int(bool(o[2]))}|" + ",".join(tok(v) for v in o[3])
-    if o[0] == "S":
+    if o[0] in ("S", "F"):
         # the model is given the built-in set in its actual iteration order
-        order = [unreal(u, x) for x in set(real_value(u, v) for v in o[1])]
-        return "S|" + ",".join(tok(v) for v in order)
+        mk = set if o[0] == "S" else frozenset
+        order = [unreal(u, x) for x in mk(real_value(u, v) for v in o[1])]
+        return o[0] + "|" + ",".join(tok(v) for v in order)
     if o[0] == "L":
         return "L|" + ",".join(tok(v) for v in o[1])
     raise ValueError(o)
@@ -455,8 +460,48 @@ class OperandError(Exception):
         self.name = name
 
 
+def _toggle(ks, x):
+    """`discard(x)` if `x in ks` else `add(x)`; a refusal leaves the set alone (as in the model)"""
+    try:
+        if x in ks:
+            ks.discard(x)
+        else:
+            ks.add(x)
+    except _catch():
+        pass
+
+
+def show_operand(u, other):
+    if isinstance(other, _KeyedSet):
+        return show_dict(u, list(other.items()))
+    return "[" + ",".join(tok(unreal(u, x)) for x in other) + "]"
+
+
+class Fresh:
+    """an operator result together with whether it is a new object (`r is not a and r is not b`)"""
+
+    def __init__(self, r, fresh):
+        self.r, self.fresh = r, fresh
+
+
 def perform_full(u, s, op):
     name = op[0]
+    if name == "probe":
+        try:
+            other = build_operand(u, s, op[3])
+        except _catch() as e:
+            raise OperandError(err_name(e)) from None
+        r = BIN[op[2]](other, s) if op[1] else BIN[op[2]](s, other)
+        if not isinstance(r, _KeyedSet):
+            return s, "other", r
+        fresh = r is not s and r is not other
+        x = real_value(u, op[4])
+        s0, o0 = show_ks(u, s), show_operand(u, other)
+        _toggle(r, x)  # mutate the result ...
+        r1, o1, mid = show_ks(u, r), show_operand(u, other), show_ks(u, s)  # ... and re-read both operands
+        _toggle(s, x)  # mutate the receiver ...
+        r2 = show_ks(u, r)  # ... and re-read the result
+        return s, "probe", {"fresh": fresh, "r1": r1, "o": o1, "mid": mid, "r2": r2, "s0": s0, "o0": o0}
     if name in ("bin", "rbin", "rebind", "cmp", "rcmp", "inplace"):
         try:
             other = build_operand(u, s, op[2])
@@ -464,15 +509,15 @@ def perform_full(u, s, op):
             raise OperandError(err_name(e)) from None
         if name == "bin":
             r = BIN[op[1]](s, other)
-            return s, ("set" if isinstance(r, _KeyedSet) else "other"), r
+            return s, ("set" if isinstance(r, _KeyedSet) else "other"), Fresh(r, r is not s and r is not other)
         if name == "rbin":
             r = BIN[op[1]](other, s)
-            return s, ("set" if isinstance(r, _KeyedSet) else "other"), r
+            return s, ("set" if isinstance(r, _KeyedSet) else "other"), Fresh(r, r is not s and r is not other)
         if name == "rebind":
             r = BIN[op[1]](s, other)
             if not isinstance(r, _KeyedSet):
                 return s, "other", r
-            return r, "none", None
+            return r, "rebound", r is not s and r is not other
         if name == "cmp":
             return s, "bool", CMP[op[1]](s, other)
         if name == "rcmp":
@@ -502,7 +547,14 @@ def fmt(u, kind, payload):
     if kind == "pairs":
         return "pairs " + show_dict(u, payload)
     if kind == "set":
-        return "set " + show_ks(u, payload)
+        return f"set fresh={int(payload.fresh)} " + show_ks(u, payload.r)
+    if kind == "rebound":
+        return f"ok fresh={int(payload)}"
+    if kind == "probe":
+        p = payload
+        return f"probe fresh={int(p['fresh'])} r1={p['r1']} mid={p['mid']} r2={p['r2']} o={p['o']}"
+    if isinstance(payload, Fresh):
+        payload = payload.r
     return f"other {type(payload).__name__}"
 
 
@@ -514,6 +566,8 @@ def op_line(u, op):
         return name
     if name == "inplaceSelf" or (name == "inplace" and op[2][0] == "self"):
         return f"inplaceSelf {op[1]}"  # `s <op>= s`: CPython tests `it is self`
+    if name == "probe":
+        return f"probe {int(bool(op[1]))} {op[2]} {operand_tok(u, op[3])} {tok(op[4])}"
     return f"{name} {op[1]} {operand_tok(u, op[2])}"
 
 
@@ -837,6 +891,20 @@ def _oracle(case):
         elif name == "items":
             if expect_ok() and (len(payload) != len(ref.d) or any(k not in ref.d or not same(ref.d[k], v) for k, v in payload)):
                 viol.append(f"{tag}: items {payload!r} != {ref.d!r}")
+        elif name == "probe":
+            resync_needed[0] = True  # the receiver was toggled as part of the probe
+            if raised is None and kind == "probe":
+                p = payload
+                if not p["fresh"]:
+                    viol.append(f"{tag}: the operator returned one of its operands, not a new set")
+                if p["mid"] != p["s0"]:
+                    viol.append(f"{tag}: mutating the result changed the receiver: {p['s0']} -> {p['mid']}")
+                if p["o"] != p["o0"]:
+                    viol.append(f"{tag}: mutating the result changed the other operand: {p['o0']} -> {p['o']}")
+                if p["r2"] != p["r1"]:
+                    viol.append(f"{tag}: mutating the receiver changed the earlier result: {p['r1']} -> {p['r2']}")
+            elif raised is None and kind != "probe":
+                viol.append(f"{tag}: result is a {type(payload).__name__}, not a KeyedSet")
         elif name in ("bin", "rbin", "rebind", "cmp", "rcmp", "inplace", "inplaceSelf"):
             _judge_binary(u, ref, s_before, op, raised, kind, payload, unchanged, tag, viol, resync_needed)
         s = s_new
@@ -862,6 +930,15 @@ def _oracle(case):
 def _judge_binary(u, ref, s, op, raised, kind, payload, unchanged, tag, viol, resync_needed):
     name, which = op[0], op[1]
     spec = ["self"] if name == "inplaceSelf" else op[2]
+    if isinstance(payload, Fresh):
+        if not payload.fresh:
+            viol.append(f"{tag}: the operator returned one of its operands, not a new set")
+        payload = payload.r
+    if kind == "rebound" and payload is False:
+        viol.append(f"{tag}: the operator returned one of its operands, not a new set")
+    frozen = spec[0] == "F"
+    if frozen:
+        spec = ["S", spec[1]]
     typed, enforce = ref.typed, ref.enforce
     # the other operand as the oracle sees it
     if spec[0] == "self":
@@ -977,8 +1054,8 @@ def _judge_binary(u, ref, s, op, raised, kind, payload, unchanged, tag, viol, re
                 viol.append(f"{tag}: keys {sorted(map(str, keys_of(r)))} != symmetric difference {sorted(map(str, want))}")
         return
     if name in ("cmp", "rcmp") and which in ("le", "eq"):
-        if okind == "L":
-            return
+        if okind == "L" or (frozen and which == "eq"):
+            return  # `== frozenset` is NotImplemented on both sides (not "a built-in set" for __eq__): not judged
         if raised is not None:
             viol.append(f"{tag}: raised {raised}; set algebra on keys gives an answer{f1}")
             return
@@ -1066,14 +1143,14 @@ def operand_pool(u, size2=True):
     return lists
 
 
-def operands_for(u, lists, kinds=("K00", "K10", "K01", "S", "L")):
+def operands_for(u, lists, kinds=("K00", "K10", "K01", "S", "F", "L")):
     out = []
     for vs in lists:
         vs = [list(v) for v in vs]
         for kd in kinds:
-            if kd == "S":
-                if all(is_hashable_tok(u, v) for v in vs):
-                    out.append(["S", vs])
+            if kd in ("S", "F"):
+                if all(is_hashable_tok(u, v) for v in vs) and (kd == "S" or len(vs) <= 1):
+                    out.append([kd, vs])
             elif kd == "L":
                 out.append(["L", vs])
             else:
@@ -1090,7 +1167,21 @@ def single_ops(u, operands):
         ops += [["bin", b, o] for b in BINS] + [["rbin", b, o] for b in BINS] + [["rebind", b, o] for b in BINS]
         ops += [["cmp", c, o] for c in CMPS] + [["rcmp", c, o] for c in CMPS if c != "isdisjoint"]
         ops += [["inplace", i, o] for i in IOPS]
+        # result freshness: mutate the result, re-read the operands; mutate the receiver, re-read the result
+        ops += [["probe", refl, b, o, list(good_values(u)[1])] for b in BINS for refl in (0, 1)]
     return ops
+
+
+def _always(o):
+    """ops of the exhaustive part that are never sampled away: value ops, nullary ops, and every operator /
+    probe whose other operand is EMPTY (of any kind) or the receiver itself (degenerate cases where an
+    implementation is tempted to hand back an operand)"""
+    if o[0] in ARG_OPS or len(o) == 1:
+        return True
+    if o[0] in ("probe", "bin", "rbin", "rebind"):
+        spec = o[3] if o[0] == "probe" else o[2]
+        return spec[0] == "self" or not spec[-1]
+    return False
 
 
 def random_operand(u, rng):
@@ -1108,7 +1199,7 @@ def random_operand(u, rng):
         if u in ("unhash",) and rng.random() < 0.7:
             hp = [v for v in good + oth if is_hashable_tok(u, v)]
             hv = [list(rng.choice(hp)) for _ in range(n)]
-        return ["S", hv]
+        return ["S" if rng.random() < 0.75 else "F", hv]
     return ["L", vs]
 
 
@@ -1129,6 +1220,8 @@ def random_op(u, rng):
         return ["inplaceSelf", rng.choice(IOPS)]
     o = random_operand(u, rng)
     r2 = rng.random()
+    if r2 < 0.12:
+        return ["probe", int(rng.random() < 0.4), rng.choice(BINS), o, x()]
     if r2 < 0.3:
         return ["bin", rng.choice(BINS), o]
     if r2 < 0.45:
@@ -1177,14 +1270,14 @@ def gen_cases(tier, rng):
                 for st in states:
                     ops = ops_all
                     if not thorough:
-                        ops = [o for o in ops_all if o[0] in ARG_OPS or len(o) == 1] + rng.sample(
+                        ops = [o for o in ops_all if _always(o)] + rng.sample(
                             ops_all, min(len(ops_all), 300 if len(st) else 60)
                         )
                     elif len(st) == 2:
                         keep = max(1, len(ops_all) // 3)
-                        ops = [o for o in ops_all if o[0] in ARG_OPS or len(o) == 1] + rng.sample(ops_all, keep)
+                        ops = [o for o in ops_all if _always(o)] + rng.sample(ops_all, keep)
                     for op in ops:
-                        tail = READS if op[0] in ("rebind", "inplace", "inplaceSelf") else []
+                        tail = READS if op[0] in ("rebind", "inplace", "inplaceSelf", "probe") else []
                         if op[0] == "rebind":
                             # the rebound set must keep identifying items like the receiver did
                             g = good_values(u)
@@ -1224,6 +1317,7 @@ def nontrivial(case, real):
             or head.startswith("err")
             or (head.startswith("set ") and not head.endswith("{}"))
             or head == "bool 1"
+            or head.startswith("probe ")
             or head.startswith("item ")
             or (head.startswith("opt ") and head != "opt _")
         )
@@ -1238,7 +1332,7 @@ def tags(case, real):
         f"origin:{case.get('origin', 'corpus')}", f"len:{len(case['init'])}",
     ]
     for i, op in enumerate(case["ops"]):
-        nm = op[0] if len(op) < 3 else f"{op[0]}.{op[1]}.{op[2][0]}"
+        nm = op[0] if len(op) < 3 else f"probe.{op[2]}.{op[3][0]}" if op[0] == "probe" else f"{op[0]}.{op[1]}.{op[2][0]}"
         t.append(f"op:{nm}")
         if i + 1 < len(real):
             head = real[i + 1].split(" ;; ")[0]
